@@ -34,10 +34,11 @@ type c11Req struct {
 	id    string
 	user  string
 	extra string // value of a client header some configurations forward or render
+	extra2 string // value of a second client header (X-Extra2) rendered into a value by some configurations
 }
 
 func (q c11Req) String() string {
-	return fmt.Sprintf("/%s/%s user=%s extra=%s", q.rule, q.id, q.user, q.extra)
+	return fmt.Sprintf("/%s/%s user=%s extra=%s extra2=%s", q.rule, q.id, q.user, q.extra, q.extra2)
 }
 
 type c11Scenario struct {
@@ -51,6 +52,9 @@ type c11Scenario struct {
 	extraHow  string
 	payloadUsesPath bool
 	twin      string // r2 uses a second catalogue mechanism that differs from the first only in this endpoint header value
+	usesExtra2 bool  // X-Extra2 reaches the party
+	viaOutputs bool  // the extra client header reaches the party only through .Outputs of an earlier (uncached) step
+	variation  string // name of the drawn variation of the basic configuration ("" = none)
 }
 
 func c11Digest(req *http.Request, body []byte) string {
@@ -93,17 +97,28 @@ func c11Parties(e *env) {
 				"groups": map[string]any{"g1": "x", "g2": "y", "g3": user}})
 		}
 	})
-	e.net.HandleFunc("pdp", func(w http.ResponseWriter, req *http.Request) {
+	pdp := func(w http.ResponseWriter, req *http.Request) {
 		body, _ := io.ReadAll(req.Body)
 		d := c11Digest(req, body)
-		w.Header().Set("Content-Type", "application/json")
 		w.Header().Set("X-Digest", d)
+		if req.Header.Get("X-Hc") != "" {
+			// the endpoint allows RFC 7234 caching of its answers
+			w.Header().Set("Cache-Control", "max-age=300")
+		}
 		if strings.HasPrefix(req.URL.Path, "/check") && d[0] < '2' {
 			w.WriteHeader(http.StatusForbidden)
 			return
 		}
-		json.NewEncoder(w).Encode(map[string]any{"digest": d, "allow": d[1] >= '4'})
-	})
+		if req.Header.Get("X-Fmt") == "yaml" {
+			w.Header().Set("Content-Type", "application/yaml")
+			fmt.Fprintf(w, "digest: %q\nallow: %v\ncount: 5\n", d, d[1] >= '4')
+			return
+		}
+		w.Header().Set("Content-Type", "application/json")
+		json.NewEncoder(w).Encode(map[string]any{"digest": d, "allow": d[1] >= '4', "count": 5})
+	}
+	e.net.HandleFunc("pdp", pdp)
+	e.net.HandleFunc("pre", pdp) // an uncached step in front of the mechanism under test talks to this host
 	e.net.HandleFunc("sts", func(w http.ResponseWriter, req *http.Request) {
 		body, _ := io.ReadAll(req.Body)
 		vals := parseForm(string(body))
@@ -171,6 +186,9 @@ var c11HeaderPool = map[string]string{"X-A": "1", "X-B": "{{ .Subject.ID }}", "X
 var c11StaticHeaderPool = map[string]string{"X-A": "1", "X-B": "b", "X-C": "c", "X-D": "d"}
 var c11ValuePool = map[string]string{"v1": "{{ .Request.URL.Captures.id }}", "v2": "static", "v3": "{{ .Subject.ID }}", "v4": `{{ .Request.Header "X-Extra" }}`}
 
+// two values named so that name and value run into each other when concatenated without separator: a=x,b=by / a=xb,b=y
+var c11CollidingValues = map[string]string{"a": `{{ .Request.Header "X-Extra" }}`, "b": `{{ .Request.Header "X-Extra2" }}`}
+
 func drawKeys(s *simcore.Source, pool map[string]string, min int, label string, must ...string) []string {
 	all := make([]string, 0, len(pool))
 	for k := range pool {
@@ -235,51 +253,97 @@ func c11Build(s *simcore.Source) c11Scenario {
 		if sc.kind == "contextualizer" {
 			urlPath = "/data/{{ .Values.v1 }}"
 		}
+		valuesYAML := yamlMap("          ", vkeys, c11ValuePool)
+		headersYAML := yamlMap("            ", hkeys, c11HeaderPool)
+		httpCacheYAML, mechTTL := "", "5m"
+		pre, preStep := "", ""
+		switch s.Draw(6, "variation") {
+		case 1: // two client supplied values whose names and contents collide under plain concatenation, used in the URL only
+			urlPath += "/{{ .Values.a }}/{{ .Values.b }}"
+			valuesYAML += yamlMap("          ", []string{"a", "b"}, c11CollidingValues)
+			sc.usesExtra, sc.extraHow, sc.usesExtra2 = true, "rendered into a value used in the URL", true
+			sc.describe += "colliding-values "
+			sc.variation = "colliding-values"
+		case 2: // the URL depends on the output of an earlier, uncached step which in turn depends on a client header
+			urlPath += "?o={{ .Outputs.pre.digest }}"
+			pre = "    - id: pre\n      type: generic\n      config:\n        endpoint:\n          url: http://pre/pre\n          method: GET\n        forward_headers: [ \"X-Extra\" ]\n        cache_ttl: 0s\n"
+			preStep = "    - contextualizer: pre\n"
+			sc.usesExtra, sc.extraHow, sc.viaOutputs = true, "reaches the URL through .Outputs of an earlier step", true
+			sc.describe += "outputs-in-url "
+			sc.variation = "outputs-in-url"
+		case 3: // an endpoint header depends on the output of an earlier, uncached step
+			headersYAML += "            X-O: \"{{ .Outputs.pre.digest }}\"\n"
+			pre = "    - id: pre\n      type: generic\n      config:\n        endpoint:\n          url: http://pre/pre\n          method: GET\n        forward_headers: [ \"X-Extra\" ]\n        cache_ttl: 0s\n"
+			preStep = "    - contextualizer: pre\n"
+			sc.usesExtra, sc.extraHow, sc.viaOutputs = true, "reaches an endpoint header through .Outputs of an earlier step", true
+			sc.describe += "outputs-in-header "
+			sc.variation = "outputs-in-header"
+		case 4: // the endpoint answers in YAML (integers stay integers when decoded)
+			headersYAML += "            X-Fmt: \"yaml\"\n"
+			sc.describe += "yaml-answers "
+			sc.variation = "yaml-answers"
+		case 5: // RFC 7234 cache on the endpoint in addition to (or instead of) the mechanism's own cache
+			headersYAML += "            X-Hc: \"1\"\n"
+			httpCacheYAML = "          http_cache:\n            enabled: true\n            default_ttl: 5m\n"
+			mechTTL = simcore.Pick(s, []string{"5m", "0s"}, "mech-ttl")
+			sc.describe += "http-cache(mech-ttl=" + mechTTL + ") "
+			sc.variation = "http-cache"
+		}
 		common := fmt.Sprintf(`        endpoint:
           url: http://pdp%s
           method: POST
-          headers:
+%s          headers:
 %s        payload: %q
-        cache_ttl: 5m
+        cache_ttl: %s
         values:
-%s%s`, urlPath, yamlMap("            ", hkeys, c11HeaderPool), payload, yamlMap("          ", vkeys, c11ValuePool), fwd)
+%s%s`, urlPath, httpCacheYAML, headersYAML, payload, mechTTL, valuesYAML, fwd)
+		yamlAnswers := strings.Contains(sc.describe, "yaml-answers")
 		var step1, step2 string
 		if sc.kind == "remote-authorizer" {
 			protoExpr := ""
-			if s.Draw(3, "proto-expressions") == 2 {
+			if yamlAnswers {
+				// arithmetic on a number of the answer: type sensitive in CEL
+				protoExpr = "        expressions:\n          - expression: \"Payload.count + 1 == 6\"\n"
+				sc.describe += "catalogue-expressions(count) "
+			} else if s.Draw(3, "proto-expressions") == 2 {
 				protoExpr = "        expressions:\n          - expression: \"Payload.allow == true\"\n"
-				sc.describe = "catalogue-expressions "
+				sc.describe += "catalogue-expressions "
+			}
+			ctxs := ""
+			if pre != "" {
+				ctxs = "  contextualizers:\n" + pre
 			}
 			sc.mech = "mechanisms:\n  authenticators:" + c11Authn + "  authorizers:\n    - id: mut\n      type: remote\n      config:\n" + common + protoExpr +
-				"        forward_response_headers_to_upstream: [ \"X-Digest\" ]\n  finalizers:" + echo
-			step1 = "    - authenticator: user\n    - authorizer: mut\n    - finalizer: echo"
+				"        forward_response_headers_to_upstream: [ \"X-Digest\" ]\n" + ctxs + "  finalizers:" + echo
+			step1 = "    - authenticator: user\n" + preStep + "    - authorizer: mut\n    - finalizer: echo"
 			step2 = step1
 			switch s.Draw(4, "override") {
 			case 1:
 				sc.overrides = "expressions"
-				step2 = "    - authenticator: user\n    - authorizer: mut\n      config:\n        expressions:\n          - expression: \"Payload.allow == true\"\n    - finalizer: echo"
+				step2 = "    - authenticator: user\n" + preStep + "    - authorizer: mut\n      config:\n        expressions:\n          - expression: \"Payload.allow == true\"\n    - finalizer: echo"
 			case 2:
 				sc.overrides = "values"
-				step2 = "    - authenticator: user\n    - authorizer: mut\n      config:\n        values:\n          v2: \"other\"\n          v5: \"{{ .Subject.ID }}\"\n    - finalizer: echo"
+				step2 = "    - authenticator: user\n" + preStep + "    - authorizer: mut\n      config:\n        values:\n          v2: \"other\"\n          v5: \"{{ .Subject.ID }}\"\n    - finalizer: echo"
 			case 3:
 				sc.overrides = "payload"
-				step2 = "    - authenticator: user\n    - authorizer: mut\n      config:\n        payload: \"{{ .Subject.ID }}-{{ .Values.v1 }}\"\n    - finalizer: echo"
+				step2 = "    - authenticator: user\n" + preStep + "    - authorizer: mut\n      config:\n        payload: \"{{ .Subject.ID }}-{{ .Values.v1 }}\"\n    - finalizer: echo"
 			}
 		} else {
-			sc.mech = "mechanisms:\n  authenticators:" + c11Authn + "  contextualizers:\n    - id: mut\n      type: generic\n      config:\n" + common +
+			sc.mech = "mechanisms:\n  authenticators:" + c11Authn + "  contextualizers:\n" + pre + "    - id: mut\n      type: generic\n      config:\n" + common +
 				"  finalizers:\n    - id: echo\n      type: header\n      config:\n        headers:\n          X-User: \"{{ .Subject.ID }}\"\n          X-Digest: \"{{ .Outputs.mut.digest }}\"\n"
-			step1 = "    - authenticator: user\n    - contextualizer: mut\n    - finalizer: echo"
+			step1 = "    - authenticator: user\n" + preStep + "    - contextualizer: mut\n    - finalizer: echo"
 			step2 = step1
 			switch s.Draw(3, "override") {
 			case 1:
 				sc.overrides = "values"
-				step2 = "    - authenticator: user\n    - contextualizer: mut\n      config:\n        values:\n          v2: \"other\"\n    - finalizer: echo"
+				step2 = "    - authenticator: user\n" + preStep + "    - contextualizer: mut\n      config:\n        values:\n          v2: \"other\"\n    - finalizer: echo"
 			case 2:
 				sc.overrides = "payload"
-				step2 = "    - authenticator: user\n    - contextualizer: mut\n      config:\n        payload: \"{{ .Subject.ID }}-{{ .Values.v1 }}\"\n    - finalizer: echo"
+				step2 = "    - authenticator: user\n" + preStep + "    - contextualizer: mut\n      config:\n        payload: \"{{ .Subject.ID }}-{{ .Values.v1 }}\"\n    - finalizer: echo"
 			}
 		}
 		sc.rules = fmt.Sprintf(c11RuleTpl, step1, step2)
+		_ = yamlAnswers
 		sc.describe += fmt.Sprintf("values=%v headers=%v payload=%s fwd=%v", vkeys, hkeys, payload, fwd != "")
 	case "generic-authn":
 		sc.party = "idp"
@@ -406,6 +470,9 @@ func c11Do(e *env, sc c11Scenario, q c11Req) c11Obs {
 	if q.extra != "" {
 		hdr["X-Extra"] = q.extra
 	}
+	if q.extra2 != "" {
+		hdr["X-Extra2"] = q.extra2
+	}
 	res := e.do("GET", "http://heimdall.local/"+q.rule+"/"+q.id, hdr)
 	o := c11Obs{status: res.status, user: res.header.Get("X-User"), digest: res.header.Get("X-Digest"), allowed: res.allowed}
 	if sc.kind == "jwt-finalizer" || sc.kind == "client-credentials" {
@@ -425,12 +492,19 @@ func c11Sim(r *simcore.Run) {
 		s := r.Src
 		sc := c11Build(s)
 		// request history: each new request is an earlier one with at most one component changed
-		users, ids, rules, extras := []string{"alice", "bob"}, []string{"1", "2"}, []string{"a", "b"}, []string{"x", "y"}
+		users, ids, rules, extras, extras2 := []string{"alice", "bob"}, []string{"1", "2"}, []string{"a", "b"}, []string{"x", "y", "xb"}, []string{"by", "y"}
 		n := 3 + s.Draw(8, "nreq")
-		reqs := []c11Req{{rule: "a", id: "1", user: "alice", extra: "x"}}
+		reqs := []c11Req{{rule: "a", id: "1", user: "alice", extra: "x", extra2: "by"}}
 		for len(reqs) < n {
 			q := reqs[s.Draw(len(reqs), "base")]
-			switch s.Draw(6, "mutate") {
+			switch s.Draw(7, "mutate") {
+			case 6:
+				if sc.usesExtra2 {
+					// the colliding pair
+					q.extra, q.extra2 = map[string]string{"x": "xb", "xb": "x", "y": "x"}[q.extra], map[string]string{"by": "y", "y": "by"}[q.extra2]
+				} else {
+					q.extra2 = simcore.Pick(s, extras2, "extra2")
+				}
 			case 0: // identical
 			case 1:
 				q.user = simcore.Pick(s, users, "user")
@@ -441,7 +515,7 @@ func c11Sim(r *simcore.Run) {
 			case 4:
 				q.extra = simcore.Pick(s, extras, "extra")
 			default:
-				q = c11Req{rule: simcore.Pick(s, rules, "rule"), id: simcore.Pick(s, ids, "id"), user: simcore.Pick(s, users, "user"), extra: simcore.Pick(s, extras, "extra")}
+				q = c11Req{rule: simcore.Pick(s, rules, "rule"), id: simcore.Pick(s, ids, "id"), user: simcore.Pick(s, users, "user"), extra: simcore.Pick(s, extras, "extra"), extra2: simcore.Pick(s, extras2, "extra2")}
 			}
 			reqs = append(reqs, q)
 		}
@@ -490,7 +564,11 @@ func c11Sim(r *simcore.Run) {
 			}
 			// classify what differs between this request and the earlier ones that could have filled the cache
 			why := c11Classify(sc, reqs, obsA, obsB, i)
-			r.Fail("cache-changes-result", sc.kind+"/"+why, "%s: request %d (%v) observed %s with the cache enabled but %s without (r2 overrides %q; %s)", sc.kind, i, q, obsA[i].key(), obsB[i].key(), sc.overrides, why)
+			tag := sc.kind
+			if sc.variation != "" {
+				tag += "[" + sc.variation + "]"
+			}
+			r.Fail("cache-changes-result", tag+"/"+why, "%s: request %d (%v) observed %s with the cache enabled but %s without (r2 overrides %q; %s)", sc.kind, i, q, obsA[i].key(), obsB[i].key(), sc.overrides, why)
 			break
 		}
 		// (2) effectiveness: repeat an allowed request inside the TTL; the party must not be called again
@@ -561,6 +639,9 @@ func c11Classify(sc c11Scenario, reqs []c11Req, obsA, obsB []c11Obs, i int) stri
 		}
 		if p.extra != q.extra && sc.usesExtra {
 			diff = append(diff, "client-header("+sc.extraHow+")")
+		}
+		if p.extra2 != q.extra2 && sc.usesExtra2 {
+			diff = append(diff, "second-client-header")
 		}
 		if len(diff) == 0 {
 			return "result-of-identical-request-differs"
